@@ -843,8 +843,10 @@ class _Gen:
                 cst['deco'] = ['implementer(' + ', '.join(r['expr'] for r in irefs) + ')']
                 self.defs[cid]['implements'] = [r['id'] for r in irefs]
                 if rng.chance(0.4):
-                    # the same interfaces declared again after the class, in another order
-                    later = rng.shuffled(irefs)
+                    # some of the same interfaces declared again after the class, together with further ones, in any order
+                    others = [r for r in refs if r['id'] not in {x['id'] for x in irefs}]
+                    later = rng.shuffled(rng.sample(irefs, rng.randint(1, len(irefs))) + others[:rng.randint(0, 2)])
+                    self.defs[cid]['implements'] = self.defs[cid]['implements'] + [r['id'] for r in later]
                     cst['_after'] = {'k': 'raw', 'text': f'classImplements({cst["name"]}, ' + ', '.join(r['expr'] for r in later) + ')'}
                     if 'from zope.interface import classImplements' not in m.setdefault('prelude', []):
                         m['prelude'].append('from zope.interface import classImplements')
